@@ -45,6 +45,24 @@ func pureEval(v ssa.Value, env IntEnv, depth int) (int64, bool) {
 		}
 	case *ssa.ChangeType:
 		return pureEval(x.X, env, depth)
+	case *ssa.Phi:
+		// a merge all of whose incoming values evaluate to the same number (e.g. the single remaining edge of a merged helper
+		// result after the constant outcomes were threaded away)
+		if len(x.Edges) == 0 {
+			return 0, false
+		}
+		var val int64
+		for i, e := range x.Edges {
+			if e == ssa.Value(x) {
+				continue
+			}
+			k, ok := pureEval(e, env, depth+1)
+			if !ok || (i > 0 && k != val) {
+				return 0, false
+			}
+			val = k
+		}
+		return val, true
 	case *ssa.BinOp:
 		a, ok1 := pureEval(x.X, env, depth)
 		b, ok2 := pureEval(x.Y, env, depth)
@@ -101,9 +119,6 @@ func pureEval(v ssa.Value, env IntEnv, depth int) (int64, bool) {
 			args = append(args, k)
 		}
 		return interpPure(sc, args, env, depth+1)
-	case *ssa.Phi:
-		// a phi in the *same* expression context cannot be resolved without the path; handled by the interpreters below
-		return 0, false
 	}
 	return 0, false
 }
